@@ -185,8 +185,9 @@ fn probe(h: &mut H, final_probe: bool, last: &str, sent_since: &mut usize, senti
     if h.dead.is_some() { return; }
     let mx = alloc_seam::reset_max();
     // (a single string may legitimately grow to Redis' 512 MB limit from a few request bytes - SETRANGE, SETBIT, APPEND;
-    // anything beyond that is sized by a number the client merely declared)
-    let allowed = (600usize << 20) + 8 * *sent_since;
+    // anything beyond that is sized by a number the client merely declared; and a reply that carries such a value -
+    // GETRANGE k 0 -1 - is serialised into a growable buffer, which doubles: 2 x 512 MiB plus the header)
+    let allowed = (1088usize << 20) + 8 * *sent_since;
     if mx > allowed {
         h.violate(format!("C06/alloc-bomb/{}", last), format!("largest single allocation since the last probe: {} bytes for {} request bytes (last command: {})", mx, sent_since, last));
     }
@@ -263,7 +264,7 @@ fn verb_of(args: &[Vec<u8>]) -> String {
 pub static DEF: CheckDef = CheckDef {
     id: "C06", level: "exploration", gen, exec,
     nontrivial: |o| o.counters.get("cmds").copied().unwrap_or(0) + o.counters.get("hostile_frames").copied().unwrap_or(0) >= 20 && o.counters.get("probes").copied().unwrap_or(0) >= 1,
-    rule: "one run = 60-150 hostile inputs against a server holding keys of all six types and sentinel data: (a0) in every third run, 80 multi-argument command templates (stream, consumer-group, sorted-set range, scan, index, expiry, script commands) whose typed holes - key, group, consumer, stream id, number, string - are filled from boundary pools; (a) a systematic walk, indexed by the run number, over (every command name extracted from the dispatch match arms of /repo's server.rs and executor.rs at check time + a static list) x argument position x 50 boundary values (0, +-1, i64/u64/u32 bounds and beyond, 1e400, nan, inf, huge digit strings, option keywords, stream-id forms), sent directly, inside MULTI/EXEC and through redis.call; (b) random commands with several boundary arguments; (c) byte-level hostile frames (absurd declared lengths, 200k-deep nesting, truncated frames then close, random bytes); (d) blocked/subscribed/mid-transaction connections that vanish. Oracle after every 10 inputs and at the end: no thread of the server panicked, no exit(), no deadlock, no hang (watchdog), largest single allocation <= 64 MiB + 8 x bytes sent (allocator seam), and a NEW connection gets PONG and reads the sentinel data intact; non-trivial = at least 20 hostile inputs and one probe; distinct = distinct event-log hash",
+    rule: "one run = 60-150 hostile inputs against a server holding keys of all six types and sentinel data: (a0) in every third run, 80 multi-argument command templates (stream, consumer-group, sorted-set range, scan, index, expiry, script commands) whose typed holes - key, group, consumer, stream id, number, string - are filled from boundary pools; (a) a systematic walk, indexed by the run number, over (every command name extracted from the dispatch match arms of /repo's server.rs and executor.rs at check time + a static list) x argument position x 50 boundary values (0, +-1, i64/u64/u32 bounds and beyond, 1e400, nan, inf, huge digit strings, option keywords, stream-id forms), sent directly, inside MULTI/EXEC and through redis.call; (b) random commands with several boundary arguments; (c) byte-level hostile frames (absurd declared lengths, 200k-deep nesting, truncated frames then close, random bytes); (d) blocked/subscribed/mid-transaction connections that vanish. Oracle after every 10 inputs and at the end: no thread of the server panicked, no exit(), no deadlock, no hang (watchdog), largest single allocation <= 2 x the server's own 512 MiB value cap + 64 MiB + 8 x bytes sent (allocator seam; a request for more than 8 GiB is refused, which aborts the process), and a NEW connection gets PONG and reads the sentinel data intact; non-trivial = at least 20 hostile inputs and one probe; distinct = distinct event-log hash",
     quick_budget_s: 45.0, thorough_budget_s: 1200.0, quick_max_runs: 1_000_000, thorough_max_runs: 100_000_000, exhaustive: false, exhaustive_after: |_| 0,
     real: REAL_WHOLE_SERVER, stub: STUB_WHOLE_SERVER, assumptions: ASSUME_COMMON,
 };
